@@ -15791,19 +15791,29 @@ let rec kept_before_effect vp asg = function
               | None -> false)
            | None -> false) rest)) (kept_before_effect vp asg rest)
 
+(** val temps_preorder : char list -> node -> char list list **)
+
+let rec temps_preorder vp n0 =
+  match is_temp_ident vp n0 with
+  | Some t -> t :: []
+  | None ->
+    let Node (_, cs) = n0 in
+    let rec go = function
+    | [] -> []
+    | x :: l' -> app (temps_preorder vp x) (go l')
+    in go cs
+
 (** val seq_order_issues :
     char list -> (char list * node) list -> node -> char list list **)
 
 let seq_order_issues vp asg op =
   let assigned = map fst asg in
+  let keep = fun l -> filter (fun x -> existsb (eqb1 x) assigned) l in
+  let natural = keep (dedup_str [] (temps_preorder vp op)) in
   (match view_op op with
    | OpOperands es ->
-     let expected0 =
-       filter (fun t -> existsb (eqb1 t) assigned)
-         (dedup_str [] (temps_of vp es))
-     in
      app
-       (if list_str_eqb expected0 assigned
+       (if list_str_eqb natural assigned
         then []
         else ('a'::('s'::('s'::('i'::('g'::('n'::('m'::('e'::('n'::('t'::('s'::('-'::('o'::('u'::('t'::('-'::('o'::('f'::('-'::('o'::('r'::('d'::('e'::('r'::[])))))))))))))))))))))))) :: [])
        (if kept_before_effect vp asg es
@@ -15812,10 +15822,9 @@ let seq_order_issues vp asg op =
    | OpCall (f, t, rest) ->
      let tf = temps_of vp (t :: []) in
      let ff = temps_of vp (f :: []) in
-     let restt = dedup_str (app tf ff) (temps_of vp rest) in
-     let keep = fun l -> filter (fun x -> existsb (eqb1 x) assigned) l in
-     let e1 = keep (dedup_str [] (app tf (app ff restt))) in
-     let e2 = keep (dedup_str [] (app ff (app tf restt))) in
+     let swapped =
+       keep (dedup_str [] (app tf (app ff (temps_preorder vp op))))
+     in
      let f_rhs =
        match is_temp_ident vp f with
        | Some x -> assoc_str x asg
@@ -15846,9 +15855,9 @@ let seq_order_issues vp asg op =
        | None -> true
      in
      app
-       (if list_str_eqb e2 assigned
+       (if list_str_eqb natural assigned
         then []
-        else if list_str_eqb e1 assigned
+        else if list_str_eqb swapped assigned
              then if f_static
                   then []
                   else ('t'::('h'::('i'::('s'::('-'::('b'::('e'::('f'::('o'::('r'::('e'::('-'::('n'::('o'::('n'::('s'::('t'::('a'::('t'::('i'::('c'::('-'::('p'::('a'::('t'::('h'::[])))))))))))))))))))))))))) :: []
@@ -15857,12 +15866,8 @@ let seq_order_issues vp asg op =
         then ('k'::('e'::('p'::('t'::('-'::('i'::('d'::('e'::('n'::('t'::('i'::('f'::('i'::('e'::('r'::('-'::('b'::('e'::('f'::('o'::('r'::('e'::('-'::('e'::('f'::('f'::('e'::('c'::('t'::[]))))))))))))))))))))))))))))) :: []
         else [])
    | OpBare (_, rest) ->
-     let expected0 =
-       filter (fun t -> existsb (eqb1 t) assigned)
-         (dedup_str [] (temps_of vp rest))
-     in
      app
-       (if list_str_eqb expected0 assigned
+       (if list_str_eqb natural assigned
         then []
         else ('a'::('s'::('s'::('i'::('g'::('n'::('m'::('e'::('n'::('t'::('s'::('-'::('o'::('u'::('t'::('-'::('o'::('f'::('-'::('o'::('r'::('d'::('e'::('r'::[])))))))))))))))))))))))) :: [])
        (if kept_before_effect vp asg rest
